@@ -137,6 +137,8 @@ type Gen struct {
 	pure      int // >0: pure-term mode
 	escaped   map[string]bool // Local: heaps whose address escaped
 	nLocal    int
+	replay    *ReplayPlan
+	lookups   []lookupRec
 }
 
 // keepHeap: heaps an unknown callee cannot write: ghost variables, immutable globals, address-taken locals that never escaped.
@@ -313,7 +315,12 @@ func (g *Gen) elemsHeap(el types.Type) string {
 }
 
 func (g *Gen) cellHeap(el types.Type) string {
-	return g.regHeap("Cell:"+typeStr(el), arrSort(SInt, g.sorts.SortOf(el)))
+	// cells of named basic types share the heap of their underlying type: *GasPool and (*uint64)(gp) are the same memory
+	key := el
+	if _, isBasic := el.Underlying().(*types.Basic); isBasic {
+		key = el.Underlying()
+	}
+	return g.regHeap("Cell:"+typeStr(key), arrSort(SInt, g.sorts.SortOf(el)))
 }
 
 func (g *Gen) bigHeap() string { return g.regHeap("BigVal", arrSort(SInt, SInt)) }
